@@ -71,6 +71,7 @@ def check(ctx):
         tx += ["let a = { 'p (f a) };\nlet f x = g x;\nlet g x = f x | a;\nres / on get -> a;\n",
                "let f x = f x;\nlet a = { 'x a };\nres / on get -> <f a>;\n",
                "let a = { 'x a };\nlet f x = f x;\nres / on get -> <f a>;\n"]
+        tx += [p["mods"][p["main"]] for p in progs.shared_corpus() if len(p["mods"]) == 1]
         for op, cl, corev in texts.NESTINGS:
             for d in (50, 200):
                 tx.append(texts.nested(d, op, cl, corev) + "res / on get -> <a>;\n")
